@@ -133,6 +133,8 @@ fn from_radix_digits_be(v: &[u8], radix: u32) -> BigUint {
 
     debug_assert!(tail.len() % power == 0);
     for chunk in tail.chunks(power) {
+        #[cfg(num_bigint_verif)]
+        crate::verif_probe::hit(43);
         if data.last() != Some(&0) {
             data.push(0);
         }
@@ -308,6 +310,10 @@ fn high_bits_to_u64(v: &BigUint) -> u64 {
                     #[allow(clippy::useless_conversion)]
                     let masked = u64::from(*d) << (64 - (digit_bits - bits_want) as u32);
                     ret |= (masked != 0) as u64;
+                    #[cfg(num_bigint_verif)]
+                    if bits_want == 0 && masked != 0 {
+                        crate::verif_probe::hit(36);
+                    }
                 }
 
                 ret_bits += bits_want;
@@ -701,6 +707,8 @@ pub(super) fn to_radix_digits_le(u: &BigUint, radix: u32) -> Vec<u8> {
     // The threshold for this was chosen by anecdotal performance measurements to
     // approximate where this starts to make a noticeable difference.
     if digits.data.len() >= 64 {
+        #[cfg(num_bigint_verif)]
+        crate::verif_probe::hit(33);
         let mut big_base = BigUint::from(base);
         let mut big_power = 1usize;
 
@@ -754,8 +762,12 @@ pub(super) fn to_radix_le(u: &BigUint, radix: u32) -> Vec<u8> {
         // Powers of two can use bitwise masks and shifting instead of division
         let bits = ilog2(radix);
         if big_digit::BITS % bits == 0 {
+            #[cfg(num_bigint_verif)]
+            crate::verif_probe::hit(34);
             to_bitwise_digits_le(u, bits)
         } else {
+            #[cfg(num_bigint_verif)]
+            crate::verif_probe::hit(35);
             to_inexact_bitwise_digits_le(u, bits)
         }
     } else if radix == 10 {
